@@ -360,4 +360,101 @@ theorem ended_stays_ended (n : Nat) (s : State) (u : Nat) (s' : State) (h : abor
   obtain ⟨f', hf', hu⟩ := hr v f hv
   exact ⟨f', hf', hu, hu.not_listening⟩
 
+
+/-- `_abort_flow` ends the instance unless it is a deactivation of a reference instance that other activators
+    still hold (then ONLY the reference count changes): afterwards the instance is not listening, for every
+    `deactivate_flow` value, every hierarchy and every fuel. -/
+theorem abort_ends_instance (n : Nat) (s : State) (u : Nat) (d : Bool) (s' : State) (f : Flow) (hf : s.flows u = some f)
+    (h : abortFlow n s u d = .ok s') :
+    (d = true ∧ s' = setFlow s u { f with activated := f.activated - 1 } ∧ f.activated - 1 ≠ 0) ∨
+    ∃ f', s'.flows u = some f' ∧ f'.status.listening = false := by
+  cases n with
+  | zero => simp [abortFlow] at h
+  | succ n =>
+    simp only [abortFlow] at h
+    split at h
+    · cases h
+    · next s1 h1 =>
+      cases h
+      left
+      unfold deactivatePhase at h1
+      simp only [hf] at h1
+      split at h1
+      · cases h1
+      · cases h1
+      · next hr =>
+        split at h1
+        · split at h1 <;> cases h1
+        · next hne =>
+          cases h1
+          refine ⟨?_, rfl, by simpa using hne⟩
+          cases d
+          · simp at hr
+          · rfl
+    · next s1 h1 =>
+      right
+      obtain ⟨_, _, hrel⟩ := (deactivatePhase_steps _ (abortFlow_rec_steps n) _ _ _ _ _ h1).flows_rel
+      obtain ⟨f1, hf1, hu⟩ := hrel u f hf
+      by_cases hg : f1.status.listening = true ∨ f1.status = .stopping
+      · obtain ⟨_, _, _, s6, f6, _, _, _, _, _, _, hf6, st6, _, _, _, _, _, hr⟩ := abortBody_post _ s1 u d s' f1 hf1 hg h
+        obtain ⟨g, hg', hcase⟩ := restart_spec _ _ _ _ hr
+        rw [hf6] at hg'; cases hg'
+        rcases hcase with ⟨_, _, _, _, hu', _⟩ | ⟨_, e⟩
+        · exact ⟨_, hu', by simp [st6, FStatus.listening]⟩
+        · rw [e]; exact ⟨_, hf6, by simp [st6, FStatus.listening]⟩
+      · unfold abortBody at h
+        simp only [hf1] at h
+        have hg1 : ¬ f1.status.listening = true := fun e => hg (Or.inl e)
+        have hg2 : ¬ f1.status = .stopping := fun e => hg (Or.inr e)
+        have hc : (!f1.status.listening && f1.status != .stopping) = true := by
+          simp [hg1, hg2]
+        rw [if_pos hc] at h
+        cases h
+        exact ⟨f1, hf1, by simpa using hg1⟩
+
+
+/-- the child loop of `_abort_flow` / `_finish_flow` stops every non-activated child that is listed:
+    "every still-running flow it started has stopped" (one level; nested levels by the same theorem applied to the
+    nested calls, `ended_stays_ended` keeps them stopped) -/
+theorem children_stopped (n : Nat) : ∀ (l : List Nat) (s s1 : State),
+    childLoop (fun s c => abortFlow n s c true) s l = .ok s1 →
+    ∀ c ∈ l, ∀ cf, s.flows c = some cf → cf.activated = 0 →
+      ∃ cf', s1.flows c = some cf' ∧ cf'.status.listening = false ∧ cf'.activated = 0
+  | [], _, _, _, c, hc, _, _, _ => by simp at hc
+  | c0 :: cs, s, s1, h, c, hc, cf, hcf, hact => by
+    simp only [childLoop] at h
+    split at h
+    · next hnone =>
+      rcases List.mem_cons.1 hc with e | e
+      · subst e; rw [hcf] at hnone; cases hnone
+      · exact children_stopped n cs s s1 h c e cf hcf hact
+    · next cf0 hcf0 =>
+      split at h
+      · split at h
+        · next s2 h2 =>
+          have hst := abortFlow_true_steps n s c0 s2 h2
+          obtain ⟨_, _, hrel⟩ := hst.flows_rel
+          obtain ⟨cf2, hcf2, hu2⟩ := hrel c cf hcf
+          have hact2 : cf2.activated = 0 := by have := hu2.activated; omega
+          by_cases e : c = c0
+          · subst e
+            rcases abort_ends_instance n s c true s2 cf hcf h2 with ⟨_, _, hne⟩ | ⟨f', hf', hl'⟩
+            · rw [hact] at hne; simp at hne
+            · obtain ⟨_, _, hrel'⟩ := (childLoop_steps _ (abortFlow_rec_steps n) _ _ _ h).flows_rel
+              obtain ⟨f'', hf'', hu''⟩ := hrel' c f' hf'
+              rw [hcf2] at hf'; cases hf'
+              exact ⟨f'', hf'', hu''.not_listening hl', by have := hu''.activated; omega⟩
+          · have hc' : c ∈ cs := by
+              rcases List.mem_cons.1 hc with e' | e'
+              · exact absurd e' e
+              · exact e'
+            exact children_stopped n cs s2 s1 h c hc' cf2 hcf2 hact2
+        · cases h
+      · next hca =>
+        rcases List.mem_cons.1 hc with e | e
+        · subst e
+          rw [hcf] at hcf0; cases hcf0
+          simp [isChildActivated, hact] at hca
+        · exact children_stopped n cs s s1 h c e cf hcf hact
+
 end NemoVerif.C06
